@@ -85,3 +85,224 @@ def aero_outputs(prob, surfaces, point="aero_point_0"):
         out[k] = prob.get_val("%s.%s" % (point, k)).copy()
     out["circulations"] = prob.get_val(point + ".aero_states.circulations").copy()
     return out
+
+
+# ----------------------------------------------------------------------------------------------------------------
+# structures / aerostructures
+
+_ux = np.linspace(0.1, 0.6, 11)
+_uy = 0.06 * np.sqrt(1.0 - ((_ux - 0.35) / 0.45) ** 2)
+WINGBOX_AIRFOIL = dict(data_x_upper=_ux.copy(), data_x_lower=_ux.copy(), data_y_upper=_uy.copy(), data_y_lower=-_uy.copy())
+
+
+def wingbox_airfoil(thick=0.06, skew=0.0, x0=0.1, x1=0.6, n=11):
+    """smooth closed-ish upper/lower curves with matching end abscissae (documented requirement)"""
+    x = np.linspace(x0, x1, n)
+    mid = 0.5 * (x0 + x1)
+    half = 0.5 * (x1 - x0)
+    shape = np.sqrt(np.maximum(1.0 - ((x - mid) / (1.8 * half)) ** 2, 0.0))
+    yu = thick * shape * (1.0 + skew * (x - mid))
+    yl = -thick * shape * (1.0 - 0.5 * skew * (x - mid))
+    return dict(data_x_upper=x.copy(), data_x_lower=x.copy(), data_y_upper=yu, data_y_lower=yl)
+
+
+def struct_surface(name, mesh, symmetry, model="tube", ncp=2, **kw):
+    """surface dictionary for structural / aerostructural groups.  B-spline control points are constant by default."""
+    s = aero_surface(name, mesh, symmetry)
+    s.update(
+        {
+            "fem_model_type": model,
+            "E": 70.0e9,
+            "G": 30.0e9,
+            "yield": 500.0e6 / 2.5,
+            "mrho": 3.0e3,
+            "fem_origin": 0.35,
+            "wing_weight_ratio": 2.0,
+            "struct_weight_relief": False,
+            "distributed_fuel_weight": False,
+            "Wf_reserve": 100.0,
+            "exact_failure_constraint": False,
+            "t_over_c_cp": np.array([0.12]),
+            "twist_cp": np.zeros(ncp),
+        }
+    )
+    if model == "tube":
+        s["thickness_cp"] = 0.015 * np.ones(ncp)
+    else:
+        s.update({k: v.copy() for k, v in WINGBOX_AIRFOIL.items()})
+        s.update(
+            {
+                "spar_thickness_cp": 0.006 * np.ones(ncp),
+                "skin_thickness_cp": 0.01 * np.ones(ncp),
+                "original_wingbox_airfoil_t_over_c": 0.12,
+                "strength_factor_for_upper_skin": 1.0,
+                "fuel_density": 803.0,
+            }
+        )
+    s.update(kw)
+    return s
+
+
+AS_FLOW_DEFAULT = dict(v=80.0, alpha=3.0, beta=0.0, Mach=0.3, re=1e6, rho=1.0, CT=9.8e-6, R=1e6, W0=1000.0,
+                       load_factor=1.0, empty_cg=[0.0, 0.0, 0.0], fuel_mass=500.0)
+
+
+def aerostruct_problem(surfaces, flow=None, npts=1, compressible=False, rotational=False, setup=True, mode="auto",
+                       flows=None, tighten=1e-12):
+    """AerostructGeometry + n AerostructPoint groups wired as in the documentation.
+    flows: optional list of per-point dicts (then v, alpha, Mach, rho, re, load_factor are per point)."""
+    from openaerostruct.integration.aerostruct_groups import AerostructGeometry, AerostructPoint
+
+    fl = dict(AS_FLOW_DEFAULT)
+    fl.update(flow or {})
+    prob = om.Problem(reports=False)
+    ivc = om.IndepVarComp()
+    perpoint = ("v", "alpha", "Mach", "re", "rho", "load_factor")
+    names = {"Mach": "Mach_number"}
+    units = {"v": "m/s", "alpha": "deg", "beta": "deg", "re": "1/m", "rho": "kg/m**3", "CT": "1/s", "R": "m", "W0": "kg",
+             "speed_of_sound": "m/s"}
+    shared = ["beta", "CT", "R", "W0"]
+    if flows is None:
+        shared += list(perpoint)
+    for k in shared:
+        ivc.add_output(names.get(k, k), val=fl[k], units=units.get(k))
+    if flows is None:
+        ivc.add_output("speed_of_sound", val=fl["v"] / max(fl["Mach"], 1e-3), units="m/s")
+    else:
+        for i, f in enumerate(flows):
+            ff = dict(fl)
+            ff.update(f)
+            for k in perpoint:
+                ivc.add_output("%s_%d" % (names.get(k, k), i), val=ff[k], units=units.get(k))
+            ivc.add_output("speed_of_sound_%d" % i, val=ff["v"] / max(ff["Mach"], 1e-3), units="m/s")
+    ivc.add_output("empty_cg", val=np.array(fl["empty_cg"], float), units="m")
+    fuel = any(s.get("distributed_fuel_weight") for s in surfaces)
+    if fuel:
+        ivc.add_output("fuel_mass", val=fl["fuel_mass"], units="kg")
+    for s in surfaces:
+        if "n_point_masses" in s:
+            n = s["n_point_masses"]
+            ivc.add_output(s["name"] + "_point_masses", val=np.array(fl.get("point_masses", [10.0] * n), float), units="kg")
+            ivc.add_output(s["name"] + "_point_mass_locations",
+                           val=np.array(fl.get("point_mass_locations", [[1.0, -1.0, 0.0]] * n), float), units="m")
+            ivc.add_output(s["name"] + "_engine_thrusts", val=np.array(fl.get("engine_thrusts", [0.0] * n), float), units="N")
+    if rotational:
+        ivc.add_output("omega", val=np.array(fl.get("omega", [0.0, 0.0, 0.0]), float), units="rad/s")
+    prob.model.add_subsystem("prob_vars", ivc, promotes=["*"])
+    for s in surfaces:
+        prob.model.add_subsystem(s["name"], AerostructGeometry(surface=s))
+    for i in range(npts):
+        pn = "AS_point_%d" % i
+        prom = ["beta", "CT", "R", "W0", "empty_cg"]
+        if rotational:
+            prom.append("omega")
+        if flows is None:
+            prom += ["v", "alpha", "Mach_number", "re", "rho", "speed_of_sound", "load_factor"]
+        prob.model.add_subsystem(pn, AerostructPoint(surfaces=surfaces, compressible=compressible, rotational=rotational),
+                                 promotes_inputs=prom)
+        if flows is not None:
+            for k in ("v", "alpha", "Mach_number", "re", "rho", "speed_of_sound", "load_factor"):
+                prob.model.connect("%s_%d" % (k, i), pn + "." + k)
+        for s in surfaces:
+            name = s["name"]
+            com = pn + "." + name + "_perf."
+            prob.model.connect(name + ".local_stiff_transformed", pn + ".coupled." + name + ".local_stiff_transformed")
+            prob.model.connect(name + ".nodes", pn + ".coupled." + name + ".nodes")
+            prob.model.connect(name + ".mesh", pn + ".coupled." + name + ".mesh")
+            prob.model.connect(name + ".nodes", com + "nodes")
+            prob.model.connect(name + ".cg_location", pn + ".total_perf." + name + "_cg_location")
+            prob.model.connect(name + ".structural_mass", pn + ".total_perf." + name + "_structural_mass")
+            prob.model.connect(name + ".t_over_c", com + "t_over_c")
+            if s.get("struct_weight_relief"):
+                prob.model.connect(name + ".element_mass", pn + ".coupled." + name + ".element_mass")
+            if s["fem_model_type"] == "tube":
+                prob.model.connect(name + ".radius", com + "radius")
+                prob.model.connect(name + ".thickness", com + "thickness")
+            else:
+                for k in ["Qz", "J", "A_enc", "htop", "hbottom", "hfront", "hrear", "spar_thickness"]:
+                    prob.model.connect(name + "." + k, com + k)
+                if s.get("distributed_fuel_weight"):
+                    prob.model.connect(name + ".struct_setup.fuel_vols", pn + ".coupled." + name + ".struct_states.fuel_vols")
+                    prob.model.connect("fuel_mass", pn + ".coupled." + name + ".struct_states.fuel_mass")
+            if "n_point_masses" in s:
+                cp = pn + ".coupled." + name + "."
+                prob.model.connect(name + "_point_masses", cp + "point_masses")
+                prob.model.connect(name + "_point_mass_locations", cp + "point_mass_locations")
+                prob.model.connect(name + "_engine_thrusts", cp + "engine_thrusts")
+    if setup:
+        if mode == "auto":
+            prob.setup()
+        else:
+            prob.setup(mode=mode)
+        quiet_coupled(prob, npts, tighten)
+    return prob
+
+
+def quiet_coupled(prob, npts=1, tighten=1e-12, maxiter=200):
+    """solver settings must be changed after setup() (setup re-creates the solvers)"""
+    for i in range(npts):
+        c = getattr(prob.model, "AS_point_%d" % i).coupled
+        c.nonlinear_solver.options["iprint"] = -1
+        c.linear_solver.options["iprint"] = -1
+        c.nonlinear_solver.options["err_on_non_converge"] = True
+        c.nonlinear_solver.options["maxiter"] = maxiter
+        if tighten:
+            c.nonlinear_solver.options["atol"] = tighten
+            c.nonlinear_solver.options["rtol"] = 1e-30
+
+
+def struct_alone_problem(surface, loads=None, load_factor=1.0, setup=True, extra=None):
+    """SpatialBeamAlone fed with nodal loads (ny, 6)"""
+    from openaerostruct.structures.struct_groups import SpatialBeamAlone
+
+    ny = surface["mesh"].shape[1]
+    prob = om.Problem(reports=False)
+    ivc = om.IndepVarComp()
+    ivc.add_output("loads", val=np.zeros((ny, 6)) if loads is None else np.array(loads, float), units="N")
+    ivc.add_output("load_factor", val=load_factor)
+    for k, (v, u) in (extra or {}).items():
+        ivc.add_output(k, val=v, units=u)
+    prob.model.add_subsystem("indep_vars", ivc, promotes=["*"])
+    prob.model.add_subsystem(surface["name"], SpatialBeamAlone(surface=surface), promotes=["*"])
+    if setup:
+        prob.setup()
+    return prob
+
+
+def aero_geom_problem(surfaces, flow, compressible=False, height=None, setup=True):
+    """Geometry group per surface + AeroPoint, wired as in the documentation"""
+    from openaerostruct.aerodynamics.aero_groups import AeroPoint
+    from openaerostruct.geometry.geometry_group import Geometry
+
+    prob = om.Problem(reports=False)
+    ivc = om.IndepVarComp()
+    ivc.add_output("v", val=flow.get("v", 100.0), units="m/s")
+    ivc.add_output("alpha", val=flow.get("alpha", 5.0), units="deg")
+    ivc.add_output("beta", val=flow.get("beta", 0.0), units="deg")
+    ivc.add_output("Mach_number", val=flow.get("Mach", 0.3))
+    ivc.add_output("re", val=flow.get("re", 1e6), units="1/m")
+    ivc.add_output("rho", val=flow.get("rho", 1.0), units="kg/m**3")
+    ivc.add_output("cg", val=np.array(flow.get("cg", [0.0, 0.0, 0.0]), float), units="m")
+    rotational = "omega" in flow
+    prom = ["v", "alpha", "beta", "Mach_number", "re", "rho", "cg"]
+    if height is not None:
+        ivc.add_output("height_agl", val=height, units="m")
+        prom.append("height_agl")
+    if rotational:
+        ivc.add_output("omega", val=np.array(flow["omega"], float), units="rad/s")
+        prom.append("omega")
+    prob.model.add_subsystem("prob_vars", ivc, promotes=["*"])
+    for s in surfaces:
+        prob.model.add_subsystem(s["name"], Geometry(surface=s))
+    prob.model.add_subsystem(
+        "aero_point_0", AeroPoint(surfaces=surfaces, compressible=compressible, rotational=rotational), promotes_inputs=prom
+    )
+    for s in surfaces:
+        n = s["name"]
+        prob.model.connect(n + ".mesh", "aero_point_0." + n + ".def_mesh")
+        prob.model.connect(n + ".mesh", "aero_point_0.aero_states." + n + "_def_mesh")
+        if "t_over_c_cp" in s:
+            prob.model.connect(n + ".t_over_c", "aero_point_0." + n + "_perf.t_over_c")
+    if setup:
+        prob.setup()
+    return prob
